@@ -124,10 +124,55 @@ def stepJudge (acc : Acc) (m : MAct) (o : ObsStep) : Acc :=
 
 def dedup (l : List String) : List String := l.foldl (fun acc x => if acc.contains x then acc else acc ++ [x]) []
 
+/-! ### QoS of the subscriptions (extension mqtt)
+
+Spec on the observation alone, independent of the step model (which tracks filters only): wherever a filter
+is present — in the live session, in the persisted copy, in the TopicManager — its QoS is the QoS of the latest
+executed SUBSCRIBE for it ("a reconnect with cleanSession=false gets its previous subscriptions back": filter AND
+QoS). Every subscribe updates TopicManager, session and (the harness awaits the put) the persisted copy, and a
+persistent reconnect re-subscribes from the session, so on the unchanged code the three always agree with it. -/
+
+def lookupNat (k : Nat) : List (Nat × Nat) → Option Nat
+  | [] => none
+  | (a, b) :: r => if a == k then some b else lookupNat k r
+
+def setNat (k v : Nat) (l : List (Nat × Nat)) : List (Nat × Nat) := (k, v) :: l.filter (fun e => e.1 != k)
+
+def qosMismatch (last : List (Nat × Nat)) (topics qos : List Nat) : Option (Nat × Nat × Nat) :=
+  (topics.zip qos).findSome? fun (f, q) =>
+    match lookupNat f last with
+    | some q' => if q != q' then some (f, q, q') else none
+    | none => none
+
+/-- first QoS violation over the run: (sig, note) -/
+def qosCheck (acts steps : List Json) : Option (String × String) := Id.run do
+  let mut last : List (Nat × Nat) := []
+  let mut i := 0
+  for (a, o) in acts.zip steps do
+    if optStr a "op" == "sub" && !optBool o "skipped" && optStr o "err" == "" then
+      last := setNat (optInt a "f").toNat (optInt a "q").toNat last
+    let lst := fun (k : String) => ((natList o k).toOption.getD [])
+    if optStr o "err" == "" then
+      match qosMismatch last (lst "sessTopics") (lst "sessQos") with
+      | some (f, q, q') => return some ("qos:session-differs-from-last-subscribe", s!"step {i}: topic {f} has QoS {q} in the live session, last SUBSCRIBE asked {q'}")
+      | none => pure ()
+      if optBool o "db" then
+        match qosMismatch last (lst "dbTopics") (lst "dbQos") with
+        | some (f, q, q') => return some ("qos:persisted-copy-differs-from-last-subscribe", s!"step {i}: topic {f} has QoS {q} in the persisted session, last SUBSCRIBE asked {q'}")
+        | none => pure ()
+      match qosMismatch last (lst "tm") (lst "tmQos") with
+      | some (f, q, q') => return some ("qos:routing-differs-from-last-subscribe", s!"step {i}: topic {f} is routed with QoS {q}, last SUBSCRIBE asked {q'}")
+      | none => pure ()
+    i := i + 1
+  return none
+
 def judge : Judge := liftJudge fun input obs => do
   match obsPanic obs with
   | some m => pure { agree := false, spec := false, sig := "panic-or-hang", note := m }
   | none =>
+  -- the harness stopped executing cases after repeated hangs (reported by the cases they happened in)
+  if (obs.getObjVal? "aborted").isOk then
+    return { agree := true, spec := true, tags := ["aborted-after-hangs"], note := optStr obs "aborted" }
   let acts ← getArr input "actions"
   let macros ← acts.toList.mapM parseMacro
   let stepsJ ← getArr obs "steps"
@@ -146,11 +191,14 @@ def judge : Judge := liftJudge fun input obs => do
     if probed && liveCur && !subset last.sessTopics delivered then "delivery:subscribed-topic-not-received"
     else ""
   let probeAgree := !probed || delivered == last.tm
-  let sig := if acc.sig != "" then acc.sig else probeSig
+  let qv := qosCheck acts.toList stepsJ.toList
+  let sig := if acc.sig != "" then acc.sig else if probeSig != "" then probeSig else (match qv with | some (g, _) => g | none => "")
+  let qosTags := if acts.toList.any (fun a => optStr a "op" == "sub" && optInt a "q" == 1) then ["sub-qos1"] else []
   let nt := acc.tags.contains "superseded-teardown" || acc.tags.contains "takeover" || acc.tags.contains "watch"
   pure { agree := acc.agree && probeAgree && (probed == liveCur), spec := sig == "", sig := sig,
-         note := if acc.note != "" then acc.note else if !probeAgree then "probe differs from TopicManager view" else "",
-         tags := dedup acc.tags ++ (if probed then ["probed"] else []),
+         note := if acc.note != "" then acc.note else if !probeAgree then "probe differs from TopicManager view"
+           else (match qv with | some (_, n) => n | none => ""),
+         tags := dedup acc.tags ++ (if probed then ["probed"] else []) ++ qosTags,
          nontrivial := nt, expected := Json.arr acc.expected.toArray }
 
 def judges : List (String × Judge) := [("C16", judge)]
